@@ -19,6 +19,8 @@ func checkC14(c *Ctx) {
 	c.distanceMatrixOrder()
 	c.avgMatrix()
 	c.cutEdges()
+	c.avgMetricUnchanged()
+	c.cutIdsBeforeFill()
 	c.Floor("TABLE", 5)
 	c.Floor("ORDER", 3)
 	c.Floor("LF", 3)
